@@ -112,6 +112,7 @@ class World:
         self.use_budget = use_budget
         self.library_calls = 0
         self.events = 0
+        self.asked = []  # (step index, step, operand Obj list, operand bits after the call, answer)
 
     # ------------------------------------------------------------- helpers
     def _call(self, step, objs, idx, who):
@@ -186,12 +187,18 @@ class World:
                     f"{_short(model.value(o.live))} was {_short_bits(o.L)}",
                 )
 
-    def _check_operand_region(self, idx, n, what):
+    def _check_operand_region(self, idx, n, what, transformed=False):
         o = self.slots[n]
         nb = model.bits(o.live)
         if nb == o.L:
             return False
         v = model.value(o.live)
+        if not transformed and not isinstance(o.L, str) and not isinstance(nb, str):
+            why = _vertices_persist(o.L, nb)
+            if why:
+                raise Violation("operand-changed", "C08", idx,
+                                f"slot {n}: {why} after {what} (a non-mutating call may insert "
+                                f"vertices into a boundary, never move or drop the ones it had)")
         if kernel.kind(v) != kernel.kind(o.V):
             raise Violation("operand-changed", "C08", idx, f"slot {n} changed kind after {what}")
         if not isinstance(v, str):
@@ -390,7 +397,7 @@ class World:
         outcome, payload = self._call(step, [o.live], idx, "live")
         self.stats.inc(f"fault:pre_split:{'raised' if outcome == 'raise' else 'fired'}")
         self._check_bystanders(idx, {n}, step["op"])
-        self._check_operand_region(idx, n, step["op"])
+        self._check_operand_region(idx, n, step["op"], transformed=(step["op"] == "clean"))
         self._logline(idx, step["op"], [outcome, ops._jsonify(o.L)])
 
     # .. everything that must not mutate
@@ -431,10 +438,15 @@ class World:
         self._logline(idx, op, ans[1])
         if outcome == "raise":
             self.stats.inc("probe:live_call_raised")
+            if isinstance(payload, ops.ArgumentMutated):
+                raise Violation("argument-changed", "C08", idx, f"{op}{_argstr(step)}: {payload}")
         # frame invariant
         self._check_bystanders(idx, set(names), op)
         for n in dict.fromkeys(names):
             self._check_operand_region(idx, n, op)
+        if ans[0] in ("bool", "num", "box", "rows", "str") and op not in ("plot",):
+            self.asked.append((idx, step, [self.slots[n] for n in names],
+                               [model.bits(self.slots[n].live) for n in names], ans))
         # singletons copy to themselves
         if op in ("copy", "deepcopy") and isinstance(objs[0].V, str) and outcome == "return":
             if payload is not lives[0]:
@@ -563,6 +575,31 @@ class World:
                 raise Violation("transform-consequence", "C09", idx,
                                 f"{step['op']}{_argstr(step)} after the transformation is {a1!r}; "
                                 f"before it was {a0!r}, expected ratio {ratio!r}")
+
+    def final_checks(self):
+        """Answer stability: a question asked earlier in the run is asked again at the end on
+        every object that is bit for bit what it was then; whatever happened in between (other
+        objects' operations, warm tables, faults) must not have changed the answer."""
+        idx = len(self.steps)
+        for (i0, step, objs, bits0, ans0) in self.asked[-16:]:
+            names = self._names(step) if all(k not in step or step[k] in self.slots for k in ("a", "b")) else None
+            if names is None:
+                continue
+            if any(self.slots[n] is not o for n, o in zip(names, objs)):
+                continue  # the slot holds another object now
+            if any(model.bits(self.slots[n].live) != b for n, b in zip(names, bits0)):
+                continue  # legitimately transformed or re-represented since
+            q = {k: v for k, v in step.items() if k not in ("fault", "drop", "dst")}
+            out = self._call(q, [o.live for o in objs], idx, "re-ask at end of run")
+            ans1 = ops.normalise(*out)
+            self.stats.inc("oracle:answer_stability")
+            if ans1[1] != ans0[1]:
+                raise Violation("answer-changed", "C10", idx,
+                                f"{step['op']}{_argstr(step)} answered {_ansstr(ans0)} at step {i0} and "
+                                f"{_ansstr(ans1)} at the end of the run on bit-identical operands")
+            self._check_bystanders(idx, set(names), step["op"] + " (re-ask at end)")
+            for n in dict.fromkeys(names):
+                self._check_operand_region(idx, n, step["op"] + " (re-ask at end)")
 
     def _exec_faulted(self, step, idx, names, objs, lives):
         """A non-mutating call interrupted at a seeded crash point (C11 inside a history):
@@ -740,6 +777,74 @@ class World:
         return (ans_a[1] == ans_b[1]), f"{_ansstr(ans_a)} vs {_ansstr(ans_b)}"
 
 
+def _chains_of_bits(b):
+    if isinstance(b, str):
+        return []
+    tag, body = b
+    if tag in ("S", "J"):
+        return [body]
+    out = []
+    for sub in body:
+        out.extend(_chains_of_bits(sub))
+    return out
+
+
+def _same_point_bits(a, b):
+    """Bitwise equal, or equal at the library's resolution (a rational coordinate re-normalised
+    by limit_denominator(10**9))."""
+    if a == b:
+        return True
+    for ca, cb in zip(a, b):
+        if ca == cb:
+            continue
+        if ca[0] == "q" and cb[0] == "q":
+            fa = Fraction(int(ca[2]), int(ca[4])) if ca[1] == "int" and ca[3] == "int" else None
+            fb = Fraction(int(cb[2]), int(cb[4])) if cb[1] == "int" and cb[3] == "int" else None
+            if fa is not None and fb is not None and fa.denominator > 10**9 and fb == fa.limit_denominator(10**9):
+                continue
+        return False
+    return True
+
+
+def _vertices_persist(before, after):
+    """Every junction vertex (segment end point) a boundary chain had before a non-mutating
+    call is still there afterwards, bit for bit and in the same cyclic order; the call may only
+    have inserted vertices in between.  Returns a description of the first failure or ''."""
+    cb, ca = _chains_of_bits(before), _chains_of_bits(after)
+    if len(cb) != len(ca):
+        return f"{len(cb)} boundary curves became {len(ca)}"
+    used = set()
+    for chain_b in cb:
+        verts_b = [seg[0] for seg in chain_b]
+        found = False
+        for j, chain_a in enumerate(ca):
+            if j in used:
+                continue
+            verts_a = [seg[0] for seg in chain_a]
+            # cyclic subsequence test, any rotation of the start
+            starts = [i for i, v in enumerate(verts_a) if _same_point_bits(verts_b[0], v)]
+            for st in starts:
+                rot = verts_a[st:] + verts_a[:st]
+                it = 0
+                ok = True
+                for vb in verts_b:
+                    while it < len(rot) and not _same_point_bits(vb, rot[it]):
+                        it += 1
+                    if it == len(rot):
+                        ok = False
+                        break
+                    it += 1
+                if ok:
+                    found = True
+                    break
+            if found:
+                used.add(j)
+                break
+        if not found:
+            return "a vertex of the boundary was moved or removed"
+    return ""
+
+
 # ------------------------------------------------------------------ rendering
 def _short(v, limit=160):
     if isinstance(v, str):
@@ -764,7 +869,7 @@ def _ansstr(ans):
 
 
 def _argstr(step):
-    keys = [k for k in step if k not in ("op", "a", "b", "dst", "t1", "t2", "repeat", "drop", "same_answer_as", "needs", "expect", "force_expect", "force_t2", "fault", "kkey", "kakey", "kbkey")]
+    keys = [k for k in step if k not in ("op", "a", "b", "dst", "t1", "t2", "repeat", "drop", "same_answer_as", "needs", "expect", "force_expect", "force_t2", "fault", "kkey", "kakey", "kbkey", "noisy_point")]
     return "(" + ", ".join(f"{k}={_argval(step[k])}" for k in keys) + ")"
 
 
